@@ -8,6 +8,7 @@ pub struct Scan {
     pub in_seq: Vec<bool>,    // per char: part of an escape sequence (including its ESC)
     pub seq_start: Vec<bool>, // per char: the ESC that begins a sequence
     pub wellformed: bool,
+    pub open_end: bool,       // the text ends inside a sequence (unterminated CSI/OSC, or a final ESC)
 }
 
 pub fn scan(t: &str) -> Scan {
@@ -17,6 +18,7 @@ pub fn scan(t: &str) -> Scan {
     let mut in_seq = vec![false; n];
     let mut seq_start = vec![false; n];
     let mut wellformed = true;
+    let mut open_end = false;
     let mut i = 0;
     while i < n {
         if cs[i] != '\x1b' {
@@ -51,9 +53,15 @@ pub fn scan(t: &str) -> Scan {
         } else {
             // ESC + one arbitrary char (or end of text): swallowed, not a well-formed sequence
             end = (i + 2).min(n);
+            if i + 1 >= n {
+                open_end = true;
+            }
         }
         if !ok {
             wellformed = false;
+            if i + 1 < n && (cs[i + 1] == '[' || cs[i + 1] == ']') {
+                open_end = true; // unterminated CSI / OSC runs to the end of the text
+            }
         }
         seq_start[start] = true;
         for k in start..end {
@@ -62,7 +70,7 @@ pub fn scan(t: &str) -> Scan {
         }
         i = end;
     }
-    Scan { visible, in_seq, seq_start, wellformed }
+    Scan { visible, in_seq, seq_start, wellformed, open_end }
 }
 
 pub fn wellformed(t: &str) -> bool {
@@ -73,6 +81,14 @@ pub fn wellformed(t: &str) -> bool {
 pub fn visible_text(t: &str) -> String {
     let s = scan(t);
     t.chars().zip(s.visible.iter()).filter(|(_, v)| **v).map(|(c, _)| c).collect()
+}
+
+/// the hypothesis of the Lean theorems `*_safe` (`SeqSafe`), restated on the independent scanner:
+/// every space (and every '-' when the hyphen splitter is active) lies outside escape sequences
+/// (including the char swallowed by a bare ESC), and the text does not end inside a sequence
+pub fn seq_safe(hy: bool, t: &str) -> bool {
+    let s = scan(t);
+    !s.open_end && t.chars().zip(s.in_seq.iter()).all(|(c, i)| !(*i && (c == ' ' || (hy && c == '-'))))
 }
 
 /// KF-1a class: a space inside an escape sequence
